@@ -55,7 +55,9 @@ def run_impl(c, memo=None, rule=None, pred_cls=Pred):
     import cellpylib as cpl
     ca = make_ca(c)
     snapshot = ca.tobytes()
-    rule = rule or Rule(c["rule"], c.get("scale", 1), clobber=bool(c.get("clobber")), mixret=c.get("mixret") or False)
+    from .ev1 import nested_of
+    rule = rule or Rule(c["rule"], c.get("scale", 1), clobber=bool(c.get("clobber")), mixret=c.get("mixret") or False,
+                        nested=nested_of(c, ca, memo))
     pred = None
     if "T" in c:
         ts = c["T"]
@@ -66,7 +68,15 @@ def run_impl(c, memo=None, rule=None, pred_cls=Pred):
     out.rule, out.pred, out.ca = rule, pred, ca
     out.exc = None
     out.res = None
+    import contextlib
+    import warnings
+    strict = contextlib.ExitStack()
+    if c.get("strict"):
+        strict.enter_context(np.errstate(all="raise"))
+        strict.enter_context(warnings.catch_warnings())
+        warnings.simplefilter("error")
     try:
+      with strict:
         out.res = cpl.evolve2d(ca, timesteps=np_scalar(ts, c.get("npform")) if "T" in c else ts,
                                apply_rule=shaped(rule, c.get("callform")), r=np_scalar(c["r"], c.get("npform")), neighbourhood=NB[c["nb"]],
                                memoize=memo_value(memo if memo is not None else c["memo"]))
